@@ -360,6 +360,20 @@ def _get_operand_at_path(expr: PymbolicOp, path: tuple[int, ...]) -> PymbolicOp:
     return result
 
 
+def _binding_from_matchpy(arg, from_matchpy_expr: FromMatchpyT):
+    # sequence wildcards are bound to multisets (commutative operators)
+    # or tuples of matchpy expressions
+    import multiset
+
+    if isinstance(arg, multiset.Multiset):
+        return multiset.Multiset({from_matchpy_expr(expr): count
+                                  for expr, count in arg.items()})
+    elif isinstance(arg, tuple):
+        return tuple(from_matchpy_expr(el) for el in arg)
+    else:
+        return from_matchpy_expr(arg)
+
+
 def match(subject: p.Expression,
           pattern: p.Expression,
           to_matchpy_expr: ToMatchpyT | None = None,
@@ -379,7 +393,7 @@ def match(subject: p.Expression,
     matches = match(m_subject, m_pattern)
 
     for subst in matches:
-        yield {name: from_matchpy_expr(expr)
+        yield {name: _binding_from_matchpy(expr, from_matchpy_expr)
                for name, expr in subst.items()}
 
 
@@ -404,7 +418,7 @@ def match_anywhere(subject: p.Expression,
     matches = match_anywhere(m_subject, m_pattern)
 
     for subst, path in matches:
-        yield ({name: from_matchpy_expr(expr)
+        yield ({name: _binding_from_matchpy(expr, from_matchpy_expr)
                 for name, expr in subst.items()},
                from_matchpy_expr(_get_operand_at_path(m_subject, path)))
 
